@@ -1,5 +1,6 @@
 import Fdo.Cbor.Proofs
 import Fdo.Cbor.Canon
+import Fdo.Cbor.CanonProofs
 /-
 C11 — CBOR encoding is canonical and decode/encode are mutual inverses.
 Property theorems only; helper lemmas live in Fdo/Cbor/Proofs.lean.
@@ -49,5 +50,81 @@ theorem encode_injective (x y : Item) (hx : x.WF) (hy : y.WF) (h : encode x = en
 example : (Item.arr (.cons (.map (.cons (.uint 24) (.nint 255) .nil))
     (.cons (.tag 18 (.bstr [1, 2, 3])) (.cons (.uint 18446744073709551615) .nil)))).WF := by
   simp [Item.WF, Items.WF, Pairs.WF, Items.length, Pairs.length, maxLen]
+
+/-! ### canonical form
+
+`decodeStrict` is the definition of *canonical input* used here: shortest-form heads only, map keys
+strictly ascending bytewise on their encodings, one-byte simple values. The correspondence run feeds
+every byte string `cbor.Marshal` produced to it (`cbor.strict`), so "the library's encoder emits
+canonical bytes" is checked on the implementation; what follows is proved for all inputs. -/
+
+/-- **encode(decode(b)) reproduces b byte for byte for canonical b.** Whatever the strict decoder
+accepts is the encoding of the item it returns followed by the untouched rest; the item is within
+the library's limits and in canonical form. -/
+theorem reencode_canonical (f : Nat) (b : Bytes) (v : Item) (r : Bytes)
+    (h : decodeStrict f b = some (v, r)) : b = encode v ++ r ∧ v.WF ∧ v.Canonical :=
+  let ⟨h1, h2, h3, _⟩ := decodeStrict_sound f b v r h
+  ⟨h1, h2, h3⟩
+
+/-- The library's (lenient) decoder reads canonical input as the strict one does: for canonical `b`
+the value the real decoder returns is the one whose encoding is `b`. -/
+theorem lenient_agrees_on_canonical (f : Nat) (b : Bytes) (v : Item) (r : Bytes)
+    (h : decodeStrict f b = some (v, r)) (d : Nat) (hd : v.depth ≤ d) : decode f d b = some (v, r) :=
+  (decodeStrict_sound f b v r h).2.2.2 d hd
+
+/-- Canonical byte strings are exactly the encodings of canonical items (so the hypothesis of
+`reencode_canonical` is neither vacuous nor wider than "an encoder output"). -/
+theorem canonical_iff_encoding (b : Bytes) :
+    (∃ f v, decodeStrict f b = some (v, [])) ↔ ∃ x : Item, x.WF ∧ x.Canonical ∧ b = encode x := by
+  constructor
+  · rintro ⟨f, v, h⟩
+    obtain ⟨h1, h2, h3⟩ := reencode_canonical f b v [] h
+    exact ⟨v, h2, h3, by simpa using h1⟩
+  · rintro ⟨x, hx, hc, rfl⟩
+    exact ⟨x.size, x, by simpa using decodeStrict_encode x hx hc [] x.size (Nat.le_refl _)⟩
+
+/-- **The encoder emits canonical form**: the bytes written for any value the encoder can be handed
+(no two keys of one map encoding identically) are accepted by the strict decoder, which returns the
+value with every map in bytewise key order. -/
+theorem marshal_is_canonical (x : Item) (hx : x.WF) (hm : x.Marshalable) (r : Bytes) :
+    decodeStrict x.norm.size (marshal x ++ r) = some (x.norm, r) :=
+  decodeStrict_encode x.norm (norm_wf x hx) (norm_canonical x hm) r _ (Nat.le_refl _)
+
+/-- **Map keys are written in strictly ascending bytewise order of their encodings.** -/
+theorem marshal_keys_sorted (ps : Pairs) (hd : ps.norm.KeysDistinct) :
+    ∃ qs, marshal (.map ps) = encHead 5 qs.length ++ encodePairs qs ∧ qs.StrictSorted = true ∧ qs.length = ps.length :=
+  ⟨Pairs.sort ps.norm, rfl, sort_strictSorted _ hd, by rw [sort_length, norm_length_pairs]⟩
+
+/-- **Encoding is deterministic**: the bytes do not depend on the order in which a map's pairs reach
+the encoder (Go map iteration order). -/
+theorem marshal_order_independent (ps qs : Pairs) (hp : ps.toList.Perm qs.toList)
+    (hd : DistinctKeysL ps.norm.toList) : marshal (.map ps) = marshal (.map qs) := by
+  have hn : ps.norm.toList.Perm qs.norm.toList := by
+    rw [norm_toList, norm_toList]; exact hp.map _
+  have := sort_perm _ _ hn hd
+  rw [ofList_toList, ofList_toList] at this
+  simp [marshal, Item.norm, this]
+
+/-- decode ∘ marshal = normal form: what was marshalled is read back (maps in key order), with
+anything that follows left in the stream. -/
+theorem decode_marshal (x : Item) (hx : x.WF) (hm : x.Marshalable) (hd : x.norm.depth ≤ maxDepth) (r : Bytes) :
+    decode x.norm.size maxDepth (marshal x ++ r) = some (x.norm, r) :=
+  lenient_agrees_on_canonical _ _ _ _ (marshal_is_canonical x hx hm r) _ hd
+
+/-- Non-vacuity: a two-key map given in the wrong order is marshalable; its marshalling is the
+canonical `a2 01 02 18 18 03`, and re-encoding what the strict decoder reads gives the same bytes. -/
+example :
+    let m := Item.map (.cons (.uint 24) (.uint 3) (.cons (.uint 1) (.uint 2) .nil))
+    m.WF ∧ m.Marshalable ∧ marshal m = [0xa2, 0x01, 0x02, 0x18, 0x18, 0x03]
+      ∧ (decodeStrict 10 (marshal m)).map (fun p => encode p.1) = some (marshal m) := by
+  refine ⟨by simp [Item.WF, Pairs.WF, Pairs.length, maxLen], ?_, by decide, by decide⟩
+  simp [Item.Marshalable, Pairs.Marshalable, Pairs.norm, Item.norm, Pairs.KeysDistinct, Pairs.hasKey]
+  decide
+
+/-- A non-canonical encoding of the same map (keys out of order / a two-byte head for 1) is refused
+by the strict decoder although the lenient one reads it. -/
+example : decodeStrict 10 [0xa2, 0x18, 0x18, 0x03, 0x01, 0x02] = none
+    ∧ decodeStrict 10 [0x18, 0x01] = none
+    ∧ (decode1 [0xa2, 0x18, 0x18, 0x03, 0x01, 0x02]).isSome = true := by decide +kernel
 
 end Fdo.Props.C11
